@@ -197,7 +197,7 @@ func init() {
 				// now and then a payload of several kilobytes: a writer that does not hold the write
 				// lock for the whole packet would be interleaved with the other writers
 				if rng.Intn(6) == 0 {
-					return randBytes(rng, 4000+rng.Intn(5000))
+					return randBytes(rng, 4000+rng.Intn(16000))
 				}
 				return randBytes(rng, rng.Intn(200))
 			}
